@@ -232,10 +232,11 @@ EDGE = [
     "func g(u, u) { u }; g(1, 2)", "func g(u) { u }; g()", "func g() { return; 5 }; g()", "func g() { g }; g()()", "func g(u) { if u < 1 { return 0 }; return u + g(u - 1) }; g(20)",
     "func g() { x = 1 }; g(); x", "x = 1; func g() { x = x + 1; x }; [g(), x]", "func g() { this.v = 1; h() }; func h() { v }; g()", "func g() { &t = 5; t }; g()",
     "&x = y + 1; func g() { y = 10; x }; func h() { y = 20; g() }; y = 1; [x, g(), h()]", "&x = (n = n + 1); n = 0; x; x; &x.n",
-    "&x = this.n + 1; &x.n = 5; x", "&x = x; x", "&x = null; y = 3; func g() { x ?? y }; g()",
+    "&x = this.n + 1; &x.n = 5; x", "&x = null; y = 3; func g() { x ?? y }; g()",
     "2d6k1", "2d6kh3", "4d6kl2", "4d6dh1", "4d6dl1", "4d6dl9", "3d6min5", "3d6max2", "(0)d6", "2d(0)", "2d6k(0)", "1d1d1d1", "b0", "p0", "b3", "p2", "3a10", "3a10m6", "3a8k5", "3a8q3", "1a2", "1a1", "0a5", "3c8", "3c8m6", "1c1", "f",
-    "9999999d1", "9223372036854775807d1", "b9223372036854775807",
 ]
+# need a budget (without one the real code rolls for minutes)
+EDGE_BUDGET = ["9999999d1", "9223372036854775807d1", "b9223372036854775807", "&x = x; x", "&x = x + 1; x", "func g(u) { return g(u + 1) }; g(0)"]
 
 FAMILIES = [("arith", g_arith), ("control", g_control), ("template", g_template), ("container", g_container), ("method", g_method),
             ("builtin", g_builtin), ("func", g_func), ("computed", g_computed), ("dice", g_dice), ("st", g_st), ("st2", g_st2)]
@@ -288,10 +289,10 @@ def make_inputs(rnd, n, corpus):
             inp["oplimit"] = rnd.choice([150, 1000, 5000, 30000])   # unbounded recursion without a budget kills the process
         inputs.append(inp)
         kinds.append(kind)
-    for src in EDGE:
+    for src in EDGE + EDGE_BUDGET:
         for cfg in ({}, {"oplimit": 1000}, {"mode": -1, "div0": True}):
-            if cfg.get("oplimit") is None and (b"&x = x" in k2cases.mk_input(src)["src"]):
-                continue    # unbounded recursion without a budget kills the process
+            if (src in EDGE_BUDGET or b"&x = x" in k2cases.mk_input(src)["src"]) and not cfg.get("oplimit"):
+                continue    # unbounded recursion / dice counts without a budget kill or stall the process
             inp = k2cases.mk_input(src, st=True, hi=rnd.getrandbits(64), lo=rnd.getrandbits(64), **cfg)
             inputs.append(inp)
             kinds.append("edge corpus")
